@@ -216,3 +216,75 @@ Section CountOverSelector.
         apply Forall_forall. assumption.
   Qed.
 End CountOverSelector.
+
+(* ---- topk / bottomk over a selector -------------------------------------------- *)
+
+From Verif Require Import Topk TopkProofs EndToEnd.
+
+Section TopkOverSelector.
+  Variable lt : Z -> Z -> bool.          (* on value bits: < for topk, > for bottomk *)
+  Variable isnan : Z -> bool.
+  Hypothesis lt_nan_r : forall a b, isnan b = true -> lt a b = false.
+  Hypothesis lt_irrefl : forall a, lt a a = false.
+  Hypothesis lt_trans : forall a b c, lt a b = true -> lt b c = true -> lt a c = true.
+  Hypothesis lt_negtrans : forall a b c, isnan c = false -> lt a b = true -> lt a c = true \/ lt c b = true.
+
+  Variable without : bool.
+  Variable grouping : list N.
+  Variable slabels : list labels.
+  Variable sers : list (list sample).
+  Variable off : Z.
+  Variable k : nat.
+
+  Notation inputs := (inputs without grouping slabels).
+  Notation groups := (groups without grouping slabels).
+
+  (* kAggregate.Next over the stream: the heaps are emptied after every step *)
+  Definition engine_topk (cf : cfg) (w : window) : list (Z * list (nat * Z)) :=
+    map (fun sv => (svT sv, topk_step Z lt isnan k inputs (length groups) (vec_of sv)))
+        (concat (run cf w (PSelect sers off))).
+
+  (* the samples of group g present at t *)
+  Definition group_samples (lb t : Z) (g : nat) : list (nat * Z) :=
+    filter (fun e => Nat.eqb (nth (fst e) inputs 0%nat) g) (vec_of (select_step lb off sers t)).
+
+  (* C04 for topk over a selector: at every grid step the output is the
+     concatenation, over the groups, of min(k, n) of the group's n present
+     samples, none of them strictly worse than a dropped one *)
+  Theorem topk_over_selector cf w :
+    (0 < c_shards cf)%nat -> (0 < c_batch cf)%nat -> 0 <= c_lookback cf -> wf_window w ->
+    Forall sorted_ts sers -> (1 <= k)%nat ->
+    exists outs,
+      engine_topk cf w = outs /\ map fst outs = grid w /\
+      forall t out, In (t, out) outs ->
+        exists heaps, out = concat heaps /\ length heaps = length groups /\
+          forall g, (g < length groups)%nat ->
+            let kept := nth g heaps [] in
+            let present := group_samples (c_lookback cf) t g in
+            incl kept present /\ NoDup (map fst kept) /\
+            length kept = Nat.min k (length present) /\
+            forall x y, In x kept -> In y present -> ~ In y kept -> worse Z lt isnan (snd x) (snd y) = false.
+  Proof.
+    intros HN HB Hlb Hw Hs Hk. unfold engine_topk.
+    rewrite (run_covers_grid cf w (PSelect sers off) HN HB Hlb Hw Hs). simpl denote. rewrite map_map.
+    eexists. split; [reflexivity|]. split.
+    - rewrite map_map. simpl. erewrite map_ext; [apply map_id|]. intros t. apply select_step_T.
+    - intros t out Hin. apply in_map_iff in Hin. destruct Hin as [t' [Heq _]].
+      rewrite select_step_T in Heq. inversion Heq; subst t out. clear Heq.
+      unfold topk_step. destruct (Nat.ltb_spec k 1) as [Hlt|_]; [lia|].
+      eexists. split; [reflexivity|]. split.
+      + assert (Hl : forall (vec : list (nat * Z)) hs,
+                  length (fold_left (fun hs e => set_group Z hs (nth (fst e) inputs 0%nat) (fun h => offer Z lt isnan k h e)) vec hs) = length hs).
+        { induction vec as [|e vec IH]; intros hs; simpl; [reflexivity|]. rewrite IH. apply set_group_length. }
+        rewrite Hl. apply repeat_length.
+      + intros g Hg. cbv zeta. rewrite (topk_step_group Z lt isnan k inputs (length groups) _ g Hk Hg).
+        apply (topk_group_spec Z lt isnan lt_nan_r lt_irrefl lt_trans lt_negtrans k); [assumption|].
+        unfold group_samples.
+        destruct (vec_of_good _ _ (select_step_wf (c_lookback cf) off sers t')) as [_ Hnd].
+        clear -Hnd. induction (vec_of (select_step (c_lookback cf) off sers t')) as [|e l IH]; simpl; [constructor|].
+        simpl in Hnd. inversion Hnd as [|? ? Hn Hnd']; subst.
+        destruct (Nat.eqb (nth (fst e) inputs 0%nat) g); simpl; [|apply IH; assumption].
+        constructor; [|apply IH; assumption]. intros Hin. apply Hn. apply in_map_iff in Hin.
+        destruct Hin as [x [Ex Hx]]. apply filter_In in Hx. rewrite <- Ex. apply in_map. tauto.
+  Qed.
+End TopkOverSelector.
